@@ -21,10 +21,14 @@
 
 #if defined(__SANITIZE_ADDRESS__)
 extern "C" __attribute__((used)) const char* __asan_default_options() {
-  return "exitcode=77:detect_leaks=0:allocator_may_return_null=1";
+  return "exitcode=77:detect_leaks=1:leak_check_at_exit=0:allocator_may_return_null=1:external_symbolizer_path=/usr/bin/llvm-symbolizer-14";
 }
 extern "C" __attribute__((used)) const char* __ubsan_default_options() {
   return "exitcode=77:halt_on_error=1:print_stacktrace=1";
+}
+#else
+extern "C" __attribute__((used)) const char* __lsan_default_options() {
+  return "handle_segv=0:handle_sigbus=0:handle_abort=0:handle_sigfpe=0:handle_sigill=0:exitcode=0:leak_check_at_exit=0:external_symbolizer_path=/usr/bin/llvm-symbolizer-14";
 }
 #endif
 #include <exception>
@@ -43,6 +47,7 @@ struct Shared {
   char kind[64];
   char fault[32];
   char note[64];
+  volatile long scratch[16];   // fault-branch grandchildren report counts here
 };
 
 static inline std::string sanitize(std::string s) {
@@ -167,11 +172,20 @@ struct Kernel {
   }
 
   RunResult execute(const Plan& plan) {
-    ++executions;
-    RunResult rr;
+    std::vector<const Plan*> one(1, &plan);
+    return execute_batch(one)[0];
+  }
+
+  // Runs the plans one after the other in ONE forked child (fresh copy of the
+  // zygote).  The child stops after the first run that reports a violation,
+  // and of course when it dies; the result vector then is a proper prefix and
+  // the caller re-submits the rest.  Every returned result is complete in
+  // itself (own event hash, own counters).
+  std::vector<RunResult> execute_batch(const std::vector<const Plan*>& plans) {
+    std::vector<RunResult> out;
     int pfd[2];
     if (pipe(pfd) != 0) { perror("pipe"); _exit(2); }
-    sh->cur_op = -1; sh->in_branch = 0; sh->kind[0] = 0; sh->fault[0] = 0; sh->note[0] = 0;
+    sh->cur_op = -1; sh->in_branch = 0; sh->kind[0] = 0; sh->fault[0] = 0; sh->note[0] = 0; sh->scratch[15] = -1;
     fflush(stdout); fflush(stderr);
     pid_t c = fork();
     if (c < 0) { perror("fork"); _exit(2); }
@@ -184,11 +198,16 @@ struct Kernel {
       struct rlimit rl; rl.rlim_cur = 8u << 20; rl.rlim_max = RLIM_INFINITY;
       setrlimit(RLIMIT_STACK, &rl);
       struct rlimit core; core.rlim_cur = core.rlim_max = 0; setrlimit(RLIMIT_CORE, &core);
-      alarm((unsigned) hs.child_seconds());
       std::set_terminate([]() { _exit(78); });
-      Ctx ctx; ctx.plan = &plan; ctx.sh = sh; ctx.out_fd = pfd[1];
-      hs.run(plan, ctx);
-      ctx.flush(true);
+      for (size_t j = 0; j < plans.size(); ++j) {
+        alarm((unsigned) hs.child_seconds());
+        sh->scratch[15] = (long) j; sh->cur_op = -1; sh->in_branch = 0; sh->kind[0] = 0; sh->fault[0] = 0; sh->note[0] = 0;
+        Ctx ctx; ctx.plan = plans[j]; ctx.sh = sh; ctx.out_fd = pfd[1];
+        hs.run(*plans[j], ctx);
+        bool stop = !ctx.viols.empty();
+        ctx.flush(true);
+        if (stop) break;
+      }
       _exit(0);
     }
     close(pfd[1]);
@@ -200,8 +219,28 @@ struct Kernel {
     close(pfd[0]);
     int st = 0;
     while (waitpid(c, &st, 0) < 0 && errno == EINTR) {}
-    parse(data, rr);
-    if (!rr.complete || !WIFEXITED(st) || WEXITSTATUS(st) != 0) {
+    // split the stream at the end-of-run markers
+    size_t p = 0;
+    while (p < data.size()) {
+      size_t e = data.find("\nE\n", p);
+      bool whole = e != std::string::npos;
+      std::string chunk = whole ? data.substr(p, e + 3 - p) : data.substr(p);
+      p = whole ? e + 3 : data.size();
+      RunResult rr;
+      parse(chunk, rr);
+      if (!whole && chunk.find_first_not_of(" \n") == std::string::npos) break;
+      out.push_back(rr);
+      ++executions;
+    }
+    bool died = !WIFEXITED(st) || WEXITSTATUS(st) != 0;
+    if (died) {
+      long j = sh->scratch[15];
+      if (j < 0) j = 0;
+      // results up to j-1 are complete; run j died
+      while ((long) out.size() > j + 1) out.pop_back();
+      if ((long) out.size() <= j) { out.resize((size_t) j + 1); ++executions; }
+      RunResult& rr = out[(size_t) j];
+      const Plan& plan = *plans[(size_t) std::min<long>(j, (long) plans.size() - 1)];
       Violation v;
       v.prop = plan.prop; v.op = sh->cur_op;
       std::string how;
@@ -221,7 +260,8 @@ struct Kernel {
       rr.complete = false;
       rr.h = mix64(rr.h, hash_str(v.cls()));
     }
-    return rr;
+    if (out.empty()) { out.resize(1); }
+    return out;
   }
 
   static void parse(const std::string& data, RunResult& rr) {
@@ -339,7 +379,7 @@ static inline double now_s() {
 struct BatchOpts {
   std::string prop, out = "out/tmp", tier = "quick";
   u64 seed = 1;
-  long runs = 100, workers = 8, first = 0;
+  long runs = 100, workers = 8, first = 0, batch = 1;
   double max_s = 1e9;
   bool det = false;
   int shrink_budget = 300;
@@ -359,12 +399,30 @@ static int worker_main(Harness& hs, const BatchOpts& o, long w) {
   long runs = 0, ops = 0, faults = 0, other = 0;
   double t0 = now_s();
   bool thorough = o.tier == "thorough";
-  for (long i = o.first + w; i < o.first + o.runs; i += o.workers) {
-    if (now_s() - t0 > o.max_s) { stats["kit.stopped_by_time_limit"] = 1; break; }
-    Rng rng(run_seed(o.seed, hs.name(), o.prop, i));
-    Plan plan = hs.generate(rng, o.prop, thorough);
-    plan.harness = hs.name(); plan.prop = o.prop; plan.seed = o.seed; plan.run = i;
-    RunResult rr = k.execute(plan);
+  std::vector<long> todo;
+  for (long i = o.first + w; i < o.first + o.runs; i += o.workers) todo.push_back(i);
+  size_t pos = 0;
+  std::vector<Plan> plans; std::vector<RunResult> results; size_t rpos = 0;
+  while (true) {
+    if (rpos >= results.size()) {
+      if (pos >= todo.size()) break;
+      if (now_s() - t0 > o.max_s) { stats["kit.stopped_by_time_limit"] = 1; break; }
+      plans.clear();
+      for (size_t k = pos; k < todo.size() && k < pos + (size_t) o.batch; ++k) {
+        Rng rng(run_seed(o.seed, hs.name(), o.prop, todo[k]));
+        Plan plan = hs.generate(rng, o.prop, thorough);
+        plan.harness = hs.name(); plan.prop = o.prop; plan.seed = o.seed; plan.run = todo[k];
+        plans.push_back(plan);
+      }
+      std::vector<const Plan*> pp; for (auto& pl : plans) pp.push_back(&pl);
+      results = k.execute_batch(pp);
+      rpos = 0;
+    }
+    long i = todo[pos];
+    const Plan& plan = plans[rpos];
+    RunResult rr = results[rpos];
+    ++rpos; ++pos;
+    if (rpos >= results.size()) { /* the rest of the batch (if any) is re-submitted */ }
     ++runs; ops += rr.ops_done; faults += rr.faults_fired;
     for (auto& s : rr.stats) stats[s.first] += s.second;
     states.insert(rr.states.begin(), rr.states.end());
@@ -435,6 +493,7 @@ static int kit_main(int argc, char** argv, Harness& hs) {
     o.workers = atol(argval("--workers", "8").c_str());
     o.max_s = atof(argval("--max-s", "1e9").c_str());
     o.det = argval("--det", "0") == "1";
+    o.batch = std::max(1L, atol(argval("--batch", "1").c_str()));
     o.shrink_budget = atoi(argval("--shrink-budget", "300").c_str());
     std::string mk = "mkdir -p " + o.out; if (system(mk.c_str()) != 0) return 2;
     std::vector<pid_t> kids;
